@@ -107,6 +107,7 @@ bool supla_esp_board_is_rs_in_move(supla_roller_shutter_cfg_t *rs_cfg) {
       return true; /* stuck "moving" */
     case 2:
       return false; /* never moving */
+    case 5: /* as 3, but after two arrivals at an end stop the sensor sticks to "moving" (a sensor that fails mid-calibration) */
     case 3: {
       int i = (int)(rs_cfg - supla_rs_cfg);
       if (i < 0 || i >= 8) return false;
@@ -123,6 +124,17 @@ bool supla_esp_board_is_rs_in_move(supla_roller_shutter_cfg_t *rs_cfg) {
         if (fw_phys_pos[i] > 0) { moving = true; fw_phys_pos[i] -= dt * up_rate; if (fw_phys_pos[i] < 0) fw_phys_pos[i] = 0; }
       } else if (down && !up && started) {
         if (fw_phys_pos[i] < total) { moving = true; fw_phys_pos[i] += dt; if (fw_phys_pos[i] > total) fw_phys_pos[i] = total; }
+      }
+      if (fw_board.motor_model == 5) {
+        static int stops[8], was_moving[8], stuck[8];
+        if (!up && !down) {
+          was_moving[i] = 0;
+          if (stops[i] >= 2) stuck[i] = 1; /* from the next run on */
+        } else {
+          if (was_moving[i] && !moving && started) stops[i]++;
+          was_moving[i] = moving;
+          if (stuck[i] && started) return true;
+        }
       }
       return moving;
     }
